@@ -73,3 +73,5 @@ LEVEL = {
     'technique': 'Coq proof (no-loss invariant over all fault positions, convergence and resumability of the chunk protocol) + in-process '
                  'clusters with fault injection at every chunk index compared with the model',
 }
+
+CFG['rule'] = CFG['rule'] + ' ' + 'Additions: every second user id extends the previous id by a digit, so that record keys of different users are adjacent and one is a prefix of the other.'
